@@ -213,7 +213,12 @@ type omapIter struct {
 
 func (m *omap) iterator(i *interpreter) iter {
 	it := &omapIter{i: i, m: m}
-	if i.path != nil && i.path.permute && m != nil && m.live > 1 && m.live <= 3 && inConsulCode(i.curFn) &&
+	// every order of maps with up to 3 entries; up to 7 when the harness names the function (PermuteMapsIn)
+	limit := 3
+	if i.path != nil && i.path.permuteIn != "" {
+		limit = 7
+	}
+	if i.path != nil && i.path.permute && m != nil && m.live > 1 && m.live <= limit && inConsulCode(i.curFn) &&
 		(i.path.permuteIn == "" || strings.Contains(i.curFn.String(), i.path.permuteIn)) {
 		it.perm = true
 		it.seen = map[*mapEntry]bool{}
